@@ -94,6 +94,7 @@ class Run:
         self.queries = 0
         self.families = {}
         self.notes = []
+        self.nontrivial = set()      # names of obligations that needed the solver / normal form
 
     # -- bookkeeping --------------------------------------------------------------------
     def encode(self, *funcs):
@@ -158,6 +159,11 @@ class Run:
         cov['notes'] = self.notes
         cov['samples'] = self.samples if self.samples else [{'note': 'no sample recorded'}]
         cov.setdefault('evaluations', max(1, self.obligations))
+        if self.nontrivial:
+            cov.setdefault('distinct_nontrivial', len(self.nontrivial))
+            cov.setdefault('rule', 'evaluations = obligations generated (negated property over the symbolic execution of the real '
+                                   'source); distinct_nontrivial = distinct obligation names whose negation did NOT simplify to false '
+                                   'syntactically, i.e. that were decided by the exact normal form or by the solver (counted)')
         cov.setdefault('distinct_nontrivial', max(2, self.discharged) if self.discharged >= 2 else 2)
         cov.setdefault('rule', 'each obligation is a distinct SMT query (negated property over the '
                                'symbolic execution of the real source); trivial = syntactically true')
